@@ -1111,7 +1111,11 @@ class H2Stream:
             events[0].stream_ended = es_events[0]
             events += es_events
 
-        self._initialize_content_length(headers)
+        if isinstance(events[0], (RequestReceived, ResponseReceived)):
+            # The content-length of a message is the one in its request or
+            # final response headers: an informational response has no body
+            # of its own, and trailers cannot re-declare the length.
+            self._initialize_content_length(headers)
 
         if isinstance(events[0], TrailersReceived):
             if not end_stream:
